@@ -333,6 +333,19 @@ def _run(plan: dict, sim: sched.Sim, ch: sched.Chooser, dep: deploy.Deployment, 
             lin2 = linearize.check(wonly, m, env, max_nodes=60000)
             if lin2["ok"] and not lin2["inconclusive"]:
                 kind_of = "torn-read"
+        if kind_of == "nonlinearizable":
+            # two concurrent set_trial_param calls with incompatible distributions for one
+            # name both succeeded?  (check-then-insert without a lock in the RDB backend)
+            okp = [h for h in history if h["op"]["op"] == "set_trial_param" and h["res"][0] == "ok"]
+            keys: dict[str, set] = {}
+            for h in okp:
+                keys.setdefault(h["op"]["name"], set()).add(json.dumps(ops.compat_key(h["op"]["dist"])))
+            if any(len(v) > 1 for v in keys.values()):
+                m2 = m.clone()
+                m2.relax_compat = True
+                lin3 = linearize.check(history, m2, env, max_nodes=60000)
+                if lin3["ok"] and not lin3["inconclusive"]:
+                    kind_of = "param-compat-race"
         hist = ["%s[%s..%s] %s -> %s" % (h["task"], h["inv"], h["ret"], _short(h["op"]), _res_short(h["res"])) for h in history if h["task"] != "observer"]
         return common.result(sim, ch, "violation", prefix + kind_of + "|" + lin["why"][:160], "history:\n  " + "\n  ".join(hist) + "\ndeepest failure: " + lin["why"])
     if post is not None:
